@@ -32,8 +32,9 @@ ASSUMPTIONS = [
     "the 'statically for every module' clause cannot be decided by running code: it is covered by the auxiliary AST walk reported under coverage.static_lint",
 ]
 PROBES = ["io_fault_fired", "crash_fired", "torn_tmp_left_behind", "second_run_after_crash", "input_fault_error_path", "stale_report_unlink_faulted",
-          "enospc_mid_save", "vanish_fired", "log_dir_fault_fired", "walk_packages_run"]
+          "enospc_mid_save", "vanish_fired", "log_dir_fault_fired", "walk_packages_run", "syscall_monitored_run"]
 
+STRACE_SHARE = 0.25
 NETWORK_MODULES = {"socket", "socketserver", "ssl", "http.client", "http.server", "urllib.request", "urllib3", "requests", "httpx", "aiohttp",
                    "ftplib", "smtplib", "poplib", "imaplib", "telnetlib", "nntplib", "xmlrpc", "xmlrpc.client", "xmlrpc.server", "websocket",
                    "websockets", "http.cookiejar", "urllib.robotparser", "pycurl", "paramiko", "grpc", "asyncio.streams"}
@@ -92,7 +93,24 @@ def make_case(seed, facts, index=0):
             pass
     elif mode == "crash_history":
         base["crash_at"] = rng.randint(1, 90)
+    # a share of the runs is also observed at the system-call level (strace), independently of the audit hook
+    base["strace"] = rng.random() < STRACE_SHARE
     return base
+
+
+def _sys_monitor(res, stats, tag=""):
+    """Violations seen by the system-call monitor of a run executed under strace (empty when the run was not traced)."""
+    sysm = res.get("sys")
+    if not sysm:
+        return []
+    if sysm.get("unavailable"):
+        stats["syscall_monitor_unavailable"] = stats.get("syscall_monitor_unavailable", 0) + 1
+        return []
+    stats["probe:syscall_monitored_run"] = 1
+    stats["syscall_monitored_runs"] = stats.get("syscall_monitored_runs", 0) + 1
+    for k, n in sysm["counters"].items():
+        stats["sys_" + k] = stats.get("sys_" + k, 0) + n
+    return [dict(x, detail=tag + x["detail"]) for x in sysm["violations"]]
 
 
 def valid_case(case):
@@ -203,12 +221,13 @@ def exec_case(case, facts, src=None):
         try:
             w.put("w0.ini", "x")
             w.put("w0.ods", "x")
-            res = runner.run(w, {"config": "w0.ini", "input": "w0.ods"}, {"country": "us", "outdir": "out"}, host=case["host"], record_imports=True, walk_packages=True, src=src)
+            res = runner.run(w, {"config": "w0.ini", "input": "w0.ods"}, {"country": "us", "outdir": "out"}, host=case["host"], record_imports=True, walk_packages=True, src=src, strace=True)
         finally:
             w.cleanup()
         stats["runs"] += 1
         stats["probe:walk_packages_run"] = 1
         violations += monitors(res)
+        violations += _sys_monitor(res, stats)
         iv, info = import_monitor(res)
         violations += iv
         failed = [e.get("failed") for e in core.events(res) if e["ev"] == "walk_packages"]
@@ -230,9 +249,10 @@ def exec_case(case, facts, src=None):
     try:
         io_faults = [case["io_fault"]] if mode == "io_fault" else None
         crash_at = case.get("crash_at") if mode == "crash_history" else None
-        res = runner.run(w, files, opts, host=case["host"], faults=io_faults, crash_at=crash_at, record_imports=True, src=src)
+        res = runner.run(w, files, opts, host=case["host"], faults=io_faults, crash_at=crash_at, record_imports=True, src=src, strace=bool(case.get("strace")))
         stats["runs"] += 1
         violations += monitors(res)
+        violations += _sys_monitor(res, stats)
         iv, _ = import_monitor(res)
         violations += iv
         child = res.get("child") or {}
@@ -266,10 +286,11 @@ def exec_case(case, facts, src=None):
                 stats["fault:crash"] = 1
                 stats["probe:crash_fired"] = 1
             # restart on the surviving directory
-            res2 = runner.run(w, files, opts, host=dict(case["host"], epoch_ns=case["host"]["epoch_ns"] + 3600 * 10**9), record_imports=False, src=src)
+            res2 = runner.run(w, files, opts, host=dict(case["host"], epoch_ns=case["host"]["epoch_ns"] + 3600 * 10**9), record_imports=False, src=src, strace=bool(case.get("strace")))
             stats["runs"] += 1
             stats["probe:second_run_after_crash"] = 1
             violations += [dict(x, detail="(restart after crash) " + x["detail"]) for x in monitors(res2)]
+            violations += _sys_monitor(res2, stats, "(restart after crash) ")
             trace_sig.append(tuple(core.fs_trace(res2)))
             outcome += "+exit%s" % res2["rc"]
             sample["restart_exit"] = res2["rc"]
